@@ -249,3 +249,58 @@ func TestC08_Concurrent(t *testing.T) {
 	p := kit.Prop[C08Conc]{ID: "C08", Name: "Concurrent", Quick: 60, Thorough: 4000, Gen: genC08Conc, Run: runC08Conc, Journal: true}
 	p.Execute(t)
 }
+
+// ---- a long run under few keys -------------------------------------------------------------------
+// Freshness over many connections of one process: thousands of response salts for one or two keys, all
+// pairwise distinct and all recognisable (whatever pooling or caching of randomness a server may do, the
+// N-th salt must not repeat an earlier one).
+
+type C08Long struct {
+	Keys  []kit.KeySpec `json:"keys"`
+	Conns int           `json:"conns"`
+	Seed  int64         `json:"seed"`
+}
+
+func genC08Long(t *rapid.T) C08Long {
+	return C08Long{Keys: kit.GenKeyUniverse(t, 1, 2), Conns: rapid.IntRange(3000, 9000).Draw(t, "conns"), Seed: rapid.Int64Range(1, 1<<40).Draw(t, "seed")}
+}
+
+func runC08Long(c C08Long, info *kit.Info) *kit.Finding {
+	dialer := &kit.RecDialer{Response: func(string) ([]byte, error) { return []byte("r"), nil }}
+	h := service.NewStreamHandler(service.NewShadowsocksStreamAuthenticator(kit.NewCipherList(c.Keys), nil, nil, nil), time.Second)
+	h.SetTargetDialer(dialer)
+	seen := map[string]int{}
+	req := append(kit.SocksAddrFor("192.0.2.99:80", false), "req"...)
+	for i := 0; i < c.Conns; i++ {
+		ks := c.Keys[i%len(c.Keys)]
+		key := ks.Key()
+		conn := kit.NewMemConn(kit.EncodeStream(key, kit.DetBytes(c.Seed+int64(i), key.SaltSize()), req, nil), &net.TCPAddr{IP: net.IPv4(203, 0, 113, 9), Port: 2000 + i%60000})
+		rec := kit.NewRecTCPConn()
+		h.Handle(context.Background(), conn, rec)
+		if cl, _ := rec.Closed(); cl.Status != "OK" {
+			return kit.Violation("salt:setup", "connection %d under %s did not relay: %s", i, ks.ID, cl.Status)
+		}
+		out := conn.Output()
+		if len(out) < key.SaltSize() {
+			return kit.Violation("salt:response-undecryptable", "connection %d: response of %d bytes", i, len(out))
+		}
+		s := ks.Material() + "|" + string(out[:key.SaltSize()])
+		if j, dup := seen[s]; dup {
+			return kit.Violation("salt:reused", "connections %d and %d of one process (key %s) received the same server salt %x: %d response streams lie between them", j, i, ks.ID, out[:key.SaltSize()], i-j)
+		}
+		seen[s] = i
+		if i%97 == 0 { // spot check: still decryptable and recognisable
+			dec := kit.NewStreamDecoder(key)
+			if err := dec.Feed(out); err != nil || string(dec.Plain) != "r" {
+				return kit.Violation("salt:response-undecryptable", "connection %d: response does not decrypt under the client's key (%v)", i, err)
+			}
+		}
+	}
+	info.NonTrivial, info.Steps = true, c.Conns
+	return nil
+}
+
+func TestC08_LongRun(t *testing.T) {
+	p := kit.Prop[C08Long]{ID: "C08", Name: "LongRun", Quick: 8, Thorough: 400, Gen: genC08Long, Run: runC08Long}
+	p.Execute(t)
+}
